@@ -48,6 +48,24 @@ type Plan struct {
 type selectionPlan struct {
 	parentType *Object
 	fields     []*fieldPlan
+
+	// dynamic is set when collecting this selection set met a
+	// variable-driven @skip / @include. Which occurrences are included,
+	// which fragments count as visited and which sub-selections merge then
+	// depend on the request's variables, so the set is collected again per
+	// request (from sources) with the variables bound.
+	dynamic bool
+	sources []*ast.SelectionSet
+}
+
+// collectState carries what one collection pass needs to know about
+// variables: at plan time they are unbound and a variable-driven directive
+// only marks the pass dynamic; at execute time they are bound and such a
+// directive is evaluated on the spot.
+type collectState struct {
+	bound   bool
+	vars    map[string]interface{}
+	dynamic bool
 }
 
 // fieldPlan is one entry in a selectionPlan: enough to resolve, run,
@@ -186,7 +204,11 @@ func (p *Plan) planSelectionSet(parentType *Object, selectionSet *ast.SelectionS
 	}
 	sp := &selectionPlan{parentType: parentType}
 	keyed := map[string]int{}
-	p.collectInto(parentType, selectionSet, visitedFragmentNames, sp, keyed, nil)
+	cs := &collectState{}
+	p.collectInto(parentType, selectionSet, visitedFragmentNames, sp, keyed, nil, cs)
+	if cs.dynamic {
+		return &selectionPlan{parentType: parentType, dynamic: true, sources: []*ast.SelectionSet{selectionSet}}
+	}
 	if len(sp.fields) == 0 {
 		return nil
 	}
@@ -249,14 +271,28 @@ func (p *Plan) abstractAlternative(fp *fieldPlan, runtimeType *Object) *selectio
 // collectFields loop would produce.
 func (p *Plan) planMergedSelectionsForType(parentType *Object, fieldASTs []*ast.Field) *selectionPlan {
 	verifhook.Count(verifhook.PlanMergedSelectionsForType)
-	sp := &selectionPlan{parentType: parentType}
-	keyed := map[string]int{}
-	visited := map[string]bool{}
+	sources := make([]*ast.SelectionSet, 0, len(fieldASTs))
 	for _, f := range fieldASTs {
 		if f == nil || f.SelectionSet == nil {
 			continue
 		}
-		p.collectInto(parentType, f.SelectionSet, visited, sp, keyed, nil)
+		sources = append(sources, f.SelectionSet)
+	}
+	return p.collectSelectionSets(parentType, sources, &collectState{})
+}
+
+// collectSelectionSets collects the union of the given selection sets under
+// one concrete parent type. With unbound variables a set that turns out to
+// be dynamic is returned as a stub to be collected again per request.
+func (p *Plan) collectSelectionSets(parentType *Object, sources []*ast.SelectionSet, cs *collectState) *selectionPlan {
+	sp := &selectionPlan{parentType: parentType}
+	keyed := map[string]int{}
+	visited := map[string]bool{}
+	for _, set := range sources {
+		p.collectInto(parentType, set, visited, sp, keyed, nil, cs)
+	}
+	if cs.dynamic {
+		return &selectionPlan{parentType: parentType, dynamic: true, sources: sources}
 	}
 	if len(sp.fields) == 0 {
 		return nil
@@ -283,12 +319,12 @@ func (p *Plan) planMergedSelectionsForType(parentType *Object, fieldASTs []*ast.
 // keyed maps responseKey → index in sp.fields so repeat selections
 // of the same response key merge their fieldASTs (matches
 // collectFields's `fields[name] = append(fields[name], selection)`).
-func (p *Plan) collectInto(parentType *Object, selectionSet *ast.SelectionSet, visitedFragmentNames map[string]bool, sp *selectionPlan, keyed map[string]int, parentPred func(map[string]interface{}) bool) {
+func (p *Plan) collectInto(parentType *Object, selectionSet *ast.SelectionSet, visitedFragmentNames map[string]bool, sp *selectionPlan, keyed map[string]int, parentPred func(map[string]interface{}) bool, cs *collectState) {
 	verifhook.Count(verifhook.PlanCollectInto)
 	for _, iSelection := range selectionSet.Selections {
 		switch sel := iSelection.(type) {
 		case *ast.Field:
-			pred, alwaysSkip := planDirectives(sel.Directives)
+			pred, alwaysSkip := cs.directives(sel.Directives)
 			if alwaysSkip {
 				continue
 			}
@@ -330,7 +366,7 @@ func (p *Plan) collectInto(parentType *Object, selectionSet *ast.SelectionSet, v
 			sp.fields = append(sp.fields, fp)
 
 		case *ast.InlineFragment:
-			pred, alwaysSkip := planDirectives(sel.Directives)
+			pred, alwaysSkip := cs.directives(sel.Directives)
 			if alwaysSkip {
 				continue
 			}
@@ -338,11 +374,11 @@ func (p *Plan) collectInto(parentType *Object, selectionSet *ast.SelectionSet, v
 				continue
 			}
 			if sel.SelectionSet != nil {
-				p.collectInto(parentType, sel.SelectionSet, visitedFragmentNames, sp, keyed, andPredicates(parentPred, pred))
+				p.collectInto(parentType, sel.SelectionSet, visitedFragmentNames, sp, keyed, andPredicates(parentPred, pred), cs)
 			}
 
 		case *ast.FragmentSpread:
-			pred, alwaysSkip := planDirectives(sel.Directives)
+			pred, alwaysSkip := cs.directives(sel.Directives)
 			if alwaysSkip {
 				continue
 			}
@@ -366,10 +402,25 @@ func (p *Plan) collectInto(parentType *Object, selectionSet *ast.SelectionSet, v
 				continue
 			}
 			if fragDef.GetSelectionSet() != nil {
-				p.collectInto(parentType, fragDef.GetSelectionSet(), visitedFragmentNames, sp, keyed, andPredicates(parentPred, pred))
+				p.collectInto(parentType, fragDef.GetSelectionSet(), visitedFragmentNames, sp, keyed, andPredicates(parentPred, pred), cs)
 			}
 		}
 	}
+}
+
+// directives evaluates @skip / @include like planDirectives. With bound
+// variables a variable-driven directive is decided here; unbound, it marks
+// the collection pass as dynamic.
+func (cs *collectState) directives(directives []*ast.Directive) (pred func(map[string]interface{}) bool, alwaysSkip bool) {
+	pred, alwaysSkip = planDirectives(directives)
+	if pred == nil || alwaysSkip {
+		return pred, alwaysSkip
+	}
+	if cs.bound {
+		return nil, !pred(cs.vars)
+	}
+	cs.dynamic = true
+	return pred, false
 }
 
 // andPredicates returns a predicate that is true only when both inputs
@@ -660,6 +711,9 @@ func ExecutePlan(plan *Plan, p ExecuteParams) (result *Result) {
 // ExecutePlan via dethunkMapDepthFirst / dethunkMapWithBreadthFirstTraversal,
 // so this walker is the same for both.
 func executePlannedSelection(eCtx *executionContext, sp *selectionPlan, source interface{}, parentType *Object, path *ResponsePath) map[string]interface{} {
+	if sp != nil && sp.dynamic && eCtx.plan != nil {
+		sp = eCtx.plan.collectSelectionSets(sp.parentType, sp.sources, &collectState{bound: true, vars: eCtx.VariableValues})
+	}
 	if sp == nil {
 		return map[string]interface{}{}
 	}
